@@ -69,12 +69,13 @@ def propagate_param_sets(cg, funcs, sets):
                         purity.PARAM_SETS.setdefault(id(cfn), set()).add(kw.arg)
 
 
-def run_rules(tree, funcs, emit_for, cg=None):
+def run_rules(tree, funcs, emit_for, cg=None, undecided_for=None):
     mut = purity.module_level_mutables(tree)
     sets = {k for k, v in mut.items() if v == 'set'}
     propagate_param_sets(cg, funcs, sets)
     for q, fn in funcs.items():
-        purity.check_function(q, fn, mut, sets, lambda rule, node, msg, q=q: emit_for(q, rule, node, msg), module_tree=tree)
+        purity.check_function(q, fn, mut, sets, lambda rule, node, msg, q=q: emit_for(q, rule, node, msg), module_tree=tree,
+                              undecided=(lambda rule, node, msg, q=q: undecided_for(q, rule, node, msg)) if undecided_for else None)
 
 
 EXISTENCE_TESTS = ('os.path.exists', 'os.path.isfile', 'os.path.lexists')
@@ -109,17 +110,23 @@ def getcwd_allowed(fn, node, facts=None):
     paths = w.run(fn.body, st)
     needle = ('call', 'os.getcwd', (), ())
 
-    def mentions(v):
-        return v == needle or (isinstance(v, tuple) and any(mentions(x) for x in v))
-    found = False
-    for p in paths:
-        if not any(mentions(e[1:-1]) for e in p.events):
-            continue
-        found = True
-        ok = False
-        bad = False
+    def uses(v, extra, out):
+        """occurrences of the working directory inside v, each with the conditional-expression tests it sits under"""
+        if v == needle:
+            out.append(extra)
+        elif isinstance(v, tuple) and v and v[0] == 'ifexp' and len(v) == 4:
+            uses(v[1], extra, out)
+            uses(v[2], extra + [(v[1], True)], out)
+            uses(v[3], extra + [(v[1], False)], out)
+        elif isinstance(v, tuple):
+            for x in v:
+                uses(x, extra, out)
+        return out
+
+    def judge(conds):
+        ok = bad = False
         other = None
-        for t, pol, _ in p.conds:
+        for t, pol in conds:
             while t[0] == 'un' and t[1] == 'not':
                 t, pol = t[2], not pol
             if t[0] == 'call' and t[1] in EXISTENCE_TESTS and len(t[2]) == 1 and t[2][0][0] == 'name' and t[2][0][1] in params:
@@ -129,13 +136,27 @@ def getcwd_allowed(fn, node, facts=None):
                     bad = True
             elif any(mentions_name(t, a) for a in params):
                 other = t
-        if ok:
-            continue
-        if bad or other is None:
-            # consulted although the input is a file, or whatever the input is
-            return False
-        # consulted under a condition on the inputs that is not the existence test (a flag or None computed by the caller)
-        raise AnalysisError('{}: the conditions under which the working directory (os.getcwd()) is consulted are not understood ({})'.format(fn.name, show(other)[:60]))
+        return ok, bad, other
+    found = False
+    for p in paths:
+        # the call as such has no effect: what matters is where its value goes.  An event that merely names the result
+        # (`cwd = os.getcwd()`) is not a use; the value substituted into later events is.
+        occ = []
+        for e in p.events:
+            if e[0] == 'value' and e[1] == needle:
+                found = True
+                continue
+            uses(e[1:-1], [], occ)
+        for extra in occ:
+            found = True
+            ok, bad, other = judge([(t, pol) for t, pol, _ in p.conds] + extra)
+            if ok:
+                continue
+            if bad or other is None:
+                # consulted although the input is a file, or whatever the input is
+                return False
+            # consulted under a condition on the inputs that is not the existence test (a flag or None computed by the caller)
+            raise AnalysisError('{}: the conditions under which the working directory (os.getcwd()) is consulted are not understood ({})'.format(fn.name, show(other)[:60]))
     if not found:
         raise AnalysisError('os.getcwd() in {} is not on any enumerated path'.format(fn.name))
     return True
@@ -152,9 +173,21 @@ def run(repo, tier):
                  'must fire on every run.')
     rep.trusted_base = ['CPython ast', 'bbverif.callgraph resolution', 'determinism of CPython and struct']
     cg = CallGraph(facts)
-    pipe = Pipeline(facts)
-    pass_names = sorted({c.name for _, calls in pipe.all_paths() for c in calls})
-    reach = reachable(cg, 'assemble', pass_names)
+    # the pipeline of assemble (which passes run, what they receive).  When it is not understood the effect rules still run on
+    # everything reachable from assemble through the call graph - a violation found there must not be masked - and the run ends
+    # without verdict otherwise.
+    try:
+        pipe = Pipeline(facts)
+        pass_names = sorted({c.name for _, calls in pipe.all_paths() for c in calls})
+    except AnalysisError as e:
+        pipe = None
+        pass_names = []
+        rep.undecided(str(e))
+    # methods are called through values the name-based call graph does not always resolve (`table.update(...)` on an object of a
+    # repository class is indistinguishable from dict.update): every method of every class counts as reachable - the
+    # over-approximation is the sound side for effect rules
+    methods = [q for q in cg.funcs if '.' in q and q.split('.')[0] in facts.classes]
+    reach = reachable(cg, 'assemble', pass_names + methods)
     missing = [n for n in pass_names if n not in reach]
     if missing:
         raise AnalysisError('passes of the pipeline are not in the analysed reach: {}'.format(missing))
@@ -175,7 +208,9 @@ def run(repo, tier):
         while stmt is not None and not isinstance(stmt, ast.stmt) and getattr(stmt, '_parent', None) is not None:
             stmt = stmt._parent
         rep.fail(Finding(rule, q, stmt if isinstance(stmt, ast.AST) else node, msg, line=getattr(node, 'lineno', None)), instance='{} {}'.format(q, unparse(node)[:50]))
-    run_rules(repo.asm, funcs, emit, cg)
+    def und(q, rule, node, msg):
+        rep.undecided('{} in {} (line {}): {}'.format(rule, q, getattr(node, 'lineno', '?'), msg))
+    run_rules(repo.asm, funcs, emit, cg, und)
     for rule in RULES:
         if rule not in hits:
             rep.ok(rule, 'no instance in the {} functions reachable from assemble()'.format(len(funcs)))
@@ -186,7 +221,7 @@ def run(repo, tier):
     fn = facts.funcs['assemble']
     mut = purity.module_level_mutables(repo.asm)
     tables = {}
-    for compress, calls in pipe.all_paths():
+    for compress, calls in (pipe.all_paths() if pipe is not None else []):
         for c in pipe.passes(calls):
             for i, v in list(enumerate(c.args)) + list(c.kwargs.items()):
                 if v[0] not in ('items', 'const', 'func', 'class', 'closure', 'partial', 'builtin'):     # data flowing on / code
@@ -204,15 +239,57 @@ def run(repo, tier):
                 rep.check(ok, 'R16.2.fresh', '{}: the caller\'s `{}` (immutable default)'.format(what, leaf[1]),
                           lambda leaf=leaf: Finding('R16.2.fresh', 'assemble', fn, 'the default of `{}` is an object shared between calls'.format(leaf[1]), line=fn.lineno))
             elif leaf[0] == 'module':
-                rep.fail(Finding('R16.2.fresh', 'assemble', c.node, 'the fallback for a per-call table is the module-level object `{}`: it is shared between calls '
-                                 '(and filled by the passes)'.format(leaf[1]), line=getattr(c.node, 'lineno', fn.lineno)), instance=what)
+                # shared between calls: harmless as long as the pass only reads it
+                use = 'unknown'
+                callee = facts.funcs.get(c.name)
+                if callee is not None:
+                    cparams = [a.arg for a in callee.args.posonlyargs + callee.args.args]
+                    pname = (cparams[i] if isinstance(i, int) and i < len(cparams) else None) if isinstance(i, int) else \
+                        (i if i in cparams + [a.arg for a in callee.args.kwonlyargs] else None)
+                    if pname is not None and not callee.args.vararg:
+                        use = purity.default_use_class(callee, pname, repo.asm)
+                if use == 'bad':
+                    rep.fail(Finding('R16.2.fresh', 'assemble', c.node, 'the fallback for a per-call table is the module-level object `{}`: it is shared between calls '
+                                     'and filled by {}'.format(leaf[1], c.name), line=getattr(c.node, 'lineno', fn.lineno)), instance=what)
+                elif use == 'ok':
+                    rep.ok('R16.2.fresh', '{}: the module-level `{}` is only read by {}'.format(what, leaf[1], c.name))
+                else:
+                    rep.undecided('assemble hands the module-level object `{}` to {}; whether the pass changes it is not established'.format(leaf[1], c.name))
             else:
                 raise AnalysisError('assemble: origin of {} is not understood: {}'.format(what, show_value(leaf)))
     rep.analysed['per-call tables traced'] = n_tables
+    # the pass that *defines* the labels only writes the caller's table: a decision taken on what the dict already holds (a
+    # membership test, a lookup) makes the outcome depend on entries left over from an earlier call with the same dict
+    definer = facts.funcs.get('resolve_labels')
+    if definer is None:
+        raise AnalysisError('anchor vanished: pass resolve_labels')
+    dparams = {a.arg for a in definer.args.posonlyargs + definer.args.args + definer.args.kwonlyargs}
+    written = {n.value.id for n in ast.walk(definer) if isinstance(n, ast.Subscript) and isinstance(n.ctx, ast.Store)
+               and isinstance(n.value, ast.Name) and n.value.id in dparams}
+    if not written:
+        raise AnalysisError('resolve_labels: the label table it fills is not a parameter written by item assignment')
+    for tbl in sorted(written):
+        reads = []
+        for n in ast.walk(definer):
+            if isinstance(n, ast.Compare) and any(isinstance(c, ast.Name) and c.id == tbl for c in n.comparators) and any(isinstance(o, (ast.In, ast.NotIn)) for o in n.ops):
+                reads.append(n)
+            elif isinstance(n, ast.Subscript) and isinstance(n.ctx, ast.Load) and isinstance(n.value, ast.Name) and n.value.id == tbl:
+                reads.append(n)
+            elif isinstance(n, ast.Call) and isinstance(n.func, ast.Attribute) and isinstance(n.func.value, ast.Name) and n.func.value.id == tbl \
+                    and n.func.attr in ('get', 'keys', 'values', 'items', 'pop', 'setdefault', '__contains__'):
+                reads.append(n)
+            elif isinstance(n, (ast.For, ast.comprehension)) and isinstance(n.iter, ast.Name) and n.iter.id == tbl:
+                reads.append(n)
+        rep.check(not reads, 'R16.7.leftovers', 'resolve_labels only writes the caller\'s `{}` table'.format(tbl),
+                  lambda reads=reads, tbl=tbl: Finding('R16.7.leftovers', 'resolve_labels', reads[0],
+                                                       'the pass that defines the labels consults what the caller\'s `{}` dict already holds ({}): assembling the same source again '
+                                                       'with the same dict - it still holds the labels of the first run - gives a different outcome'.format(tbl, unparse(reads[0])[:50]),
+                                                       line=reads[0].lineno))
     # module import does not depend on ambient inputs either
     mod_fn = ast.FunctionDef(name='<module>', args=ast.arguments(posonlyargs=[], args=[], kwonlyargs=[], kw_defaults=[], defaults=[]),
                              body=[s for s in repo.asm.body if not isinstance(s, (ast.FunctionDef, ast.ClassDef))], decorator_list=[])
-    purity.check_function('<module>', mod_fn, {}, set(), lambda rule, node, msg: emit('<module>', rule, node, msg) if rule in ('R16.5.ambient', 'R16.4.hash-order') else None)
+    purity.check_function('<module>', mod_fn, {}, set(), lambda rule, node, msg: emit('<module>', rule, node, msg) if rule in ('R16.5.ambient', 'R16.4.hash-order') else None,
+                          undecided=lambda rule, node, msg: und('<module>', rule, node, msg) if rule in ('R16.5.ambient', 'R16.4.hash-order') else None)
     # positive fixture: every rule must still be able to fire
     fx = os.path.join(VERIF_ROOT, 'fixtures', 'c16_impure.py')
     try:
